@@ -26,6 +26,8 @@ def run(chk, tier):
         B.ordered_implicit_once(chk, F, 'R04.6', cfg)
         from props import ctor
         ctor.builder_constructors(chk, F, 'R04.0', cfg)
+        efn, epaths, erows = E.eval_dyn_table(chk, F, 'R04.7.table', cfg)
+        E.counting_discipline(chk, F, 'R04.7', cfg, efn, erows)
 
 
 def range_assignment(chk, F, rule, cfg):
